@@ -74,6 +74,11 @@ Section Instr.
     enough_gas i s -> outcome (exec_instr i s) = spec_instr i s.
 End Instr.
 
+(* lengths are Go ints: every item length and the stack depth fit an int64 *)
+Definition go_len (n : nat) : Prop := (N.of_nat n < lim63)%N.
+Definition sane (s : vmst) : Prop :=
+  go_len (length (dstack s)) /\ Forall (fun x => go_len (length x)) (dstack s).
+
 (* ------------------------------------------------------------ codec lemmas *)
 
 Open Scope N_scope.
@@ -186,35 +191,138 @@ Proof. induction st as [|x st IH]; cbn [mem]; unfold len; lia. Qed.
 Lemma len_nonneg b : 0 <= len b.
 Proof. unfold len. lia. Qed.
 
+Lemma size_operand_nonneg b : 0 <= size_operand b.
+Proof. unfold size_operand. destruct (decode b); [lia|]. destruct (_ <? _)%N; lia. Qed.
+Lemma size_operand_val b n : decode b = inr n -> (n <? lim63)%N = true -> size_operand b = Z.of_N n.
+Proof. intros D E. unfold size_operand. rewrite D, E. reflexivity. Qed.
+
 (* ------------------------------------------------------------ tactics *)
 
 (* unfold the state monad and the record updates, keep arithmetic folded *)
 Ltac vm_unfold :=
   cbv beta iota zeta delta
     [exec_instr exec_op bind ret fail lift get apply_cost defer_cost push push_alt push_bool push_bigint
-     pop pop_bigint top popn num1 num2 cmp2 range_chk do_equal do_hash n_dup n_dup_go rot_n
+     pop pop_bigint top num1 num2 cmp2 range_chk do_equal do_hash n_dup n_dup_go rot_n
      set_runlimit set_deferred set_dstack set_astack set_nextpc set_pc set_vdata
      prog pc nextpc runlimit deferred expres vdata dstack astack
-     i_op i_len i_data outcome bigint_int64 jump_target].
+     i_op i_len i_data outcome bigint_int64 jump_target low64_signed].
 
 Ltac spec_unfold :=
   cbv beta iota zeta delta
     [refines_at enough_gas spec_instr spec_sem spec_op spec_cost gas_needed gas_after charge cost
      c_base c_size c_transient un_num un_pred bin_gen bin_num bin_pred two_items ok jump sbind
-     in_range small take opt_ctx e_data e_alt e_jump top0 top1 nth
+     in_range small take opt_ctx e_data e_alt e_jump top0 top1
      prog pc nextpc runlimit deferred expres vdata dstack astack i_op i_len i_data].
 
-(* case split on the first [if] / sum / option scrutinee of goal or hypotheses *)
-Ltac split_if :=
-  match goal with
-  | |- context [if ?c then _ else _] => let E := fresh "E" in destruct c eqn:E
-  | H : context [if ?c then _ else _] |- _ => let E := fresh "E" in destruct c eqn:E
+Ltac len_norm :=
+  change (bool_item false) with (@nil N) in *; change (bool_item true) with [1%N] in *;
+  unfold item_cost, nlen, len in *; cbn [mem length] in *; unfold len in *;
+  rewrite ?map_length, ?app_length, ?firstn_length, ?skipn_length in *.
+Ltac arith := len_norm; lia.
+
+(* the scrutinee on which evaluation of a term is blocked *)
+Ltac find_stuck t :=
+  lazymatch t with
+  | if ?c then _ else _ => find_stuck c
+  | (if ?c then _ else _) _ => find_stuck c
+  | match ?x with inl _ => _ | inr _ => _ end => find_stuck x
+  | (match ?x with inl _ => _ | inr _ => _ end) _ => find_stuck x
+  | match ?x with ROk _ _ => _ | RErr _ _ => _ end => find_stuck x
+  | match ?x with [] => _ | _ :: _ => _ end => find_stuck x
+  | (match ?x with [] => _ | _ :: _ => _ end) _ => find_stuck x
+  | match ?x with Some _ => _ | None => _ end => find_stuck x
+  | (match ?x with Some _ => _ | None => _ end) _ => find_stuck x
+  | match ?x with pair _ _ => _ end => find_stuck x
+  | (match ?x with pair _ _ => _ end) _ => find_stuck x
+  | _ => t
   end.
 
-Ltac len_norm := unfold item_cost, nlen, len in *; cbn [mem length] in *; unfold len in *.
+(* phase 1: case analysis driven by the reference semantics (right-hand side of the goal
+   [enough gas -> model outcome = reference outcome]) *)
+Ltac spec_step :=
+  lazymatch goal with
+  | |- _ -> _ = ?r =>
+      let x := find_stuck r in
+      lazymatch x with
+      | inl _ => fail
+      | inr _ => fail
+      | decode ?b => let D := fresh "D" in let n := fresh "n" in
+                     destruct (decode b) as [?|n] eqn:D; [| pose proof (decode_bound _ _ D)]
+      | _ => first [ is_var x; destruct x | let E := fresh "E" in destruct x eqn:E ]
+      end; cbv beta iota
+  end.
 
-Ltac finish_eq :=
+Ltac known_decode b := match goal with H : decode b = _ |- _ => rewrite H end.
+Ltac known_truthy b := match goal with H : truthy b = _ |- _ => rewrite H end.
+
+(* phase 2: run the model; every test is decided by the context *)
+Ltac model_step :=
+  lazymatch goal with
+  | |- ?l = _ =>
+      let x := find_stuck l in
+      lazymatch x with
+      | ROk _ _ => fail
+      | RErr _ _ => fail
+      | inl _ => fail
+      | inr _ => fail
+      | is_expansion _ => let v := eval vm_compute in x in change x with v
+      | as_bigint ?b => rewrite (decode_eq b); try known_decode b
+      | as_bool ?b => rewrite (truthy_eq b); try known_truthy b
+      | _ => first [ match goal with H : x = _ |- _ => rewrite H end
+                   | let E := fresh "E" in assert (E : x = false) by arith; rewrite E; clear E
+                   | let E := fresh "E" in assert (E : x = true) by arith; rewrite E; clear E ]
+      end; cbv beta iota
+  end.
+
+(* last resort inside phase 2: a genuine case split of the model (e.g. MIN/MAX) *)
+Ltac model_split :=
+  lazymatch goal with
+  | |- ?l = _ => let x := find_stuck l in
+                 lazymatch type of x with bool => let E := fresh "E" in destruct x eqn:E; cbv beta iota end
+  end.
+
+Ltac facts :=
+  pose proof lim256_255; pose proof lim255_pos; pose proof lim63_val; pose proof lim64_63; pose proof lim63_255;
+  pose proof lim255_eq; pose proof lim256_eq; pose proof lim63_eq; pose proof lim64_eq.
+
+Ltac mem_facts := repeat match goal with
+  | H : context [mem ?x] |- _ =>
+      lazymatch goal with | _ : 0 <= mem x |- _ => fail | _ => pose proof (mem_nonneg x) end
+  end.
+
+Ltac final_parts :=
+  repeat match goal with
+  | |- inr _ = inr _ => apply f_equal
+  | |- (_, _) = (_, _) => apply f_equal2
+  | |- _ :: _ = _ :: _ => apply f_equal2
+  | |- encode _ = encode _ => apply f_equal
+  | |- bool_item _ = bool_item _ => apply f_equal
+  end; try reflexivity; try lia.
+
+Ltac final :=
   first [ reflexivity
-        | exfalso; len_norm; lia
-        | discriminate
-        | len_norm; repeat f_equal; lia ].
+        | rewrite ?truthy_eq; unfold two32; cbn [mem nth tl]; len_norm; final_parts ].
+
+Ltac size_facts :=
+  repeat match goal with
+  | H : context [size_operand ?b] |- _ =>
+      first [ match goal with
+              | D : decode b = inr ?n, E : (?n <? lim63)%N = true |- _ => rewrite (size_operand_val b n D E) in H
+              end
+            | lazymatch goal with
+              | _ : 0 <= size_operand b |- _ => fail
+              | _ => pose proof (size_operand_nonneg b)
+              end ]
+  end.
+
+Ltac op_run_with tac :=
+  repeat first [ model_step | rewrite encode_eq by arith | rewrite truthy_eq | progress tac ].
+Ltac op_run := op_run_with fail.
+
+Ltac op_start :=
+  spec_unfold; vm_unfold; change bool_bytes with bool_item;
+  cbn [nth tl]; repeat spec_step;
+  let Hgas := fresh "Hgas" in intros Hgas;
+  cbv beta iota delta [e_data e_alt e_jump] in Hgas |- *; cbn [mem nth tl] in Hgas; mem_facts; size_facts.
+
+Ltac op_proof := op_start; op_run; try final.
